@@ -374,7 +374,7 @@ func (fx *fnExec) execIndexAddr(x *ssa.IndexAddr, where string) {
 	switch b := base.(type) {
 	case Sl:
 		fx.oblige("safety:index", "safety", tAnd(fx.iLe(fx.iZero(), i), fx.iLt(i, b.Len)), where, "0 <= index < len")
-		fx.vals[x] = Ad{Heap: "E." + typeKey(b.Elem), Idx: []Term{b.Arr, fx.iAdd(b.Off, i)}, Typ: b.Elem, IsElem: true, rootTyps: []types.Type{b.Elem}}
+		fx.vals[x] = Ad{Heap: "E." + typeKey(b.Elem), Idx: []Term{b.Arr, fx.eIdx(b.Off, i)}, Typ: b.Elem, IsElem: true, rootTyps: []types.Type{b.Elem}}
 	case Ad:
 		at, ok := b.Typ.Underlying().(*types.Array)
 		if !ok {
@@ -881,5 +881,27 @@ func (fx *fnExec) execRecv(x *ssa.UnOp, where string) {
 	env.names["ch"] = fx.val(x.X)
 	if !fx.runHooks("recv", x.X.Name(), env, where) {
 		fx.noteUnspec("channel receive without history hook at " + where)
+	}
+}
+
+// eIdx: absolute position of element i of a slice with offset off.  The uninterpreted symbol idx (defined by one
+// axiom as off + i) keeps the position syntactically of the form (idx off <anything>), so that quantified facts
+// about s[k] can be instantiated at arithmetic index terms such as n-1-j.
+func (fx *fnExec) eIdx(off, i Term) Term {
+	if fx.mode != "int" {
+		return fx.iAdd(off, i)
+	}
+	if off.S == "0" {
+		return i
+	}
+	fx.needIdx()
+	return app(SInt, "idx", off, i)
+}
+
+func (fx *fnExec) needIdx() {
+	fx.declareFun("idx", []string{SInt, SInt}, SInt)
+	if !fx.declared["$idxax"] {
+		fx.declared["$idxax"] = true
+		fx.decls = append(fx.decls, "(assert (forall ((o$q Int) (k$q Int)) (! (= (idx o$q k$q) (+ o$q k$q)) :pattern ((idx o$q k$q)))))")
 	}
 }
